@@ -154,11 +154,11 @@ P("C14", [("K1", r"^k1_(c_ui|l_universe)"), ("V9", None), ("V8", None)],
   "generalize_ty, InferenceValue::unify_values (reference patterns in Verus; Clone glue blow-up in Kani).",
   "contract-based deductive verification: Kani full-domain function contracts + Verus on extracted text")
 
-P("C11", [("K12", r"_q"), ("V5", None), ("V4", None), ("V19", None), ("V22", None)],
+P("C11", [("K12", r"_q"), ("V5", None), ("V4", None), ("V19", None), ("V22", None), ("V23", None)],
   "model_checking",
   "Partial (first sentence, function-level links): Kani runs the real make_solution on every answer stream up to the bound that contains an interruption and shows the result is "
   "always Some(Ambig(_)) — never Unique, never 'no solution'; Verus proves the SLG stream reports QuantumExceeded only when the caller's callback returned false, and that an "
-  "interrupted iteration of the recursive solver returns Ambig(Unknown) without touching the solver state. BOUNDED (stream length <= 2/3) for make_solution; Verus parts unbounded.",
+  "interrupted iteration of the recursive solver returns Ambig(Unknown) without touching the solver state, and that the fixed-point loop around it never returns an answer that is not a fixed point of its last iteration - interrupted or not - so an interruption cannot freeze a provisional definite answer (V23). BOUNDED (stream length <= 2/3) for make_solution; Verus parts unbounded.",
   "Second sentence: decided for one mechanism only — Verus unit V19 states that solve_goal never makes an answer permanent while the callback says stop; this was REFUTED on the pinned tree "
   "(genuine defect: the recursive solver with its cache returned the cached interrupted `Ambiguous` to every later solve; repaired by /repo commit 3ae5951, see known_findings.json) and holds on the repaired tree. "
   "SLG side of the second sentence, one mechanism: an interrupted solve ends by dropping its SolveState, and Verus unit V22 proves that this returns every strand still held by the stack to the end of "
